@@ -129,11 +129,11 @@ Print Assumptions C18_builtin_roundtrip_flat.
 
 Example C18_roundtrip_nonvacuous :
   let db := [ {| c_union := true; c_fields := [FScalar (EPrim (KS 12)); FArr false 5 true (EPrim (KU 8)); FScalar (EPrim (KF 16))] |} ] in
+  let o := PObj 0 [PNone; PArr (DU 8) [PInt 104; PInt 105]; PNone] in
   forallb ftype_flat (c_fields (nth 0 db {| c_union := false; c_fields := [] |})) = true
-  /\ exists b, tb db (PObj 0 [PNone; PArr (DU 8) [PInt 104; PInt 105]; PNone]) = Some b
-     /\ ufb tmpl_gen pick_width_gen true db 3 (default_obj tmpl_gen pick_width_gen true db 0) b
-        = (PObj 0 [PNone; PArr (DU 8) [PInt 104; PInt 105]; PNone], None).
-Proof. vm_compute. split; [reflexivity|]. eexists. split; reflexivity. Qed.
+  /\ tb db o = Some (PDict [(1%nat, PStr [104%N; 105%N])])
+  /\ ufb tmpl_gen pick_width_gen true db 3 (default_obj tmpl_gen pick_width_gen true db 0) (PDict [(1%nat, PStr [104%N; 105%N])]) = (o, None).
+Proof. vm_compute. repeat split; reflexivity. Qed.
 
 (* non-vacuity: the hypotheses are satisfiable by a database with a union, nested composites and arrays, and the
    refutation witness itself is a well-formed database on which only the element clause fails *)
